@@ -449,6 +449,54 @@ impl Run {
         Ok(())
     }
 
+    /// Fresh single-threaded child processes of this binary, one per code (codes >= 3000 belong to the
+    /// property): the property's `run` sees `self.cold == Some(code)` as the first thing, makes its calls
+    /// and prints one line `FRESHRESULT ok <calls>` or `FRESHRESULT fail <json>`. Histories that must
+    /// start from a process in which nothing has been asked yet (exact call counts).
+    /// Returns (children that reported, calls made, first failure in code order).
+    pub fn fresh_children(&self, codes: &[usize], tables: bool) -> (u64, u64, Option<(usize, Value)>) {
+        use rayon::prelude::*;
+        let bin = std::env::current_exe().unwrap_or_else(|_| twin_binary(&self.root, profile()));
+        // the children get this run's model tables instead of rebuilding them (0.35 s each)
+        let tables_file = self.root.join("harness/target").join(format!("model-tables-fresh-{}.bin", std::process::id()));
+        let tables_env: String = if tables && crate::model::poker::save_tables(crate::model::poker::tables(), &tables_file.to_string_lossy()).is_ok() { tables_file.to_string_lossy().to_string() } else { String::new() };
+        let results: Vec<(usize, Option<u64>, Option<Value>)> = codes
+            .par_iter()
+            .map(|code| {
+                let out = std::process::Command::new(&bin)
+                    .arg(&self.id)
+                    .arg("--tier")
+                    .arg(self.tier.name())
+                    .arg("--seed")
+                    .arg(format!("{}", self.seed as i64))
+                    .arg("--cold")
+                    .arg(format!("{}", code))
+                    .env("VERIF_ROOT", &self.root)
+                    .env("VERIF_TABLES_FILE", &tables_env)
+                    .stdout(std::process::Stdio::piped())
+                    .stderr(std::process::Stdio::null())
+                    .output();
+                let mut calls = None;
+                let mut fail = None;
+                if let Ok(o) = out {
+                    for line in String::from_utf8_lossy(&o.stdout).lines() {
+                        if let Some(n) = line.strip_prefix("FRESHRESULT ok ").or_else(|| line.strip_prefix("COLDRESULT ok ")) {
+                            calls = n.trim().parse::<u64>().ok();
+                        } else if let Some(js) = line.strip_prefix("FRESHRESULT fail ").or_else(|| line.strip_prefix("COLDRESULT fail ")) {
+                            fail = serde_json::from_str::<Value>(js).ok();
+                        }
+                    }
+                }
+                (*code, calls, fail)
+            })
+            .collect();
+        let _ = std::fs::remove_file(&tables_file);
+        let ran = results.iter().filter(|r| r.1.is_some() || r.2.is_some()).count() as u64;
+        let calls = results.iter().filter_map(|r| r.1).sum::<u64>();
+        let fail = results.into_iter().find_map(|r| r.2.map(|v| (r.0, v)));
+        (ran, calls, fail)
+    }
+
     /// Merge a sub-process result (same property, other build profile) into this run.
     pub fn merge_sub(&mut self, tag: &str, ev: &Value) {
         let cov = &ev["coverage"];
